@@ -35,7 +35,8 @@ def _configure():
         "-DOMPL_BUILD_TESTS=OFF", "-DOMPL_BUILD_DEMOS=OFF", "-DOMPL_BUILD_PYBINDINGS=OFF",
         "-DOMPL_BUILD_PYTESTS=OFF", "-DOMPL_REGISTRATION=OFF",
     ]
-    r = _run(cmd)
+    extra, env = ob.ccache_args_env()
+    r = _run(cmd + extra, env=env)
     if r.returncode != 0:
         raise RuntimeError("cmake configure (tsan) failed:\n" + r.stdout[-4000:])
 
@@ -100,7 +101,7 @@ def ensure_built(log=lambda s: None):
         if rebuilt != 0 or not os.path.isfile(lib):
             if os.path.isfile(MANIFEST):
                 os.remove(MANIFEST)
-            r = _run(["cmake", "--build", BUILD, "--target", "ompl", "-j", str(os.cpu_count() or 8)])
+            r = _run(["cmake", "--build", BUILD, "--target", "ompl", "-j", str(os.cpu_count() or 8)], env=ob.ccache_args_env()[1])
             if r.returncode != 0:
                 raise RuntimeError("libompl (tsan) build failed:\n" + r.stdout[-6000:])
         json.dump(cur, open(MANIFEST, "w"))
